@@ -326,7 +326,8 @@ def decode(f0, reqs):
                         if v != prev[j]:
                             emit('R', k * rbe + j, v, ri)
                             prev[j] = v
-    return {'dom': sorted(dom), 'rc0': rc0, 'sl0': sl0, 'events': events, 'syncs': syncs, 'l1_max': l1_max, 'h': h0}
+    return {'dom': sorted(dom), 'rc0': rc0, 'sl0': sl0, 'events': events, 'syncs': syncs, 'l1_max': l1_max, 'h': h0,
+            'l2_of': dict(l2_of), 'cs': cs, 'l2e': l2e}
 
 
 def abstract_after(dec, upto):
@@ -422,3 +423,32 @@ def py_disciplined(dec):
                 if refs_max(h) > rc_min(h):
                     return False, ei, h
     return True, None, None
+
+
+def rewritten_synced_slots(dec, sync_req_idx, targeted):
+    """L2 slots whose value at the sync point (request index sync_req_idx, inclusive) is changed by a later request
+    although no later operation targets their guest cluster.  -> [(guest cluster, slot, old targets, new targets,
+    request index)]  (Proofs/CrashProps.synced_slot_survives: a slot no later event writes keeps its synced value in
+    every later crash state; these are the slots the theorem does not cover)"""
+    ei = 0
+    for k, e in enumerate(dec['events']):
+        if e[3] <= sync_req_idx:
+            ei = k + 1
+    _, sl = abstract_after(dec, ei)
+    cs, l2e = dec['cs'], dec['l2e']
+    out = []
+    cur = {}
+    for (kind, a, b, ri) in dec['events'][ei:]:
+        if kind != 'S':
+            continue
+        c = a // cs
+        if c not in dec['l2_of'] or a in (HDR_SLOT,):
+            continue
+        gc = dec['l2_of'][c] * l2e + (a - c * cs) // 8
+        old = cur.get(a, sl.get(a, []))
+        cur[a] = list(b)
+        if gc in targeted:
+            continue
+        if list(b) != sl.get(a, []):
+            out.append((gc, a, sl.get(a, []), list(b), ri))
+    return out
